@@ -8,3 +8,30 @@ Theorem C20_zero_gauges_mean_persisted :
     forall k, llv fm (ll s) k = ref_from fm (llv fm l0) (batches ls) k.
 Proof. exact drained_lower_level_is_reference. Qed.
 Print Assumptions C20_zero_gauges_mean_persisted.
+
+(* the converse, for data at rest (fine-grained wait/notify model, Sync2): F39.  With the
+   pinned merger (Mut7: goes to sleep whenever the top is empty) a state is reachable in which
+   a merged stack waits, the persister waits for a base, the merger sleeps, the ping queue is
+   empty and NOTHING is enabled: the gauges stay non-zero for ever. *)
+From Moss Require Import Sync2 Sync2Facts Sync2ProgressA Sync2Progress.
+Theorem C20_refuted_pre_fix_persist_stall_F39 :
+  exists s, reachable_gen Mut7 cfg_plain s /\ z_closed s = false /\ z_mid s = true /\
+            z_base s = false /\ z_mp s = MSelect /\ z_armed s = true /\ z_pp s = PWait /\
+            z_q s = nil /\ stuck Mut7 cfg_plain s.
+Proof. exact persist_stall_mut7_refuted. Qed.
+Print Assumptions C20_refuted_pre_fix_persist_stall_F39.
+
+(* the repaired code, PARTIAL: in every state satisfying the proved invariants in which a merged
+   stack waits for a free persister and no caller is pending, some background step other than a
+   failing merge is enabled and decreases the distance to the hand-over - proved for every merger
+   program point except the hand-over step itself and the dirty-limit wait (full statement: the
+   same without the first two premises). *)
+Theorem C20_no_persist_stall_partial :
+  forall c, (1 <= c_cap c)%nat -> (1 <= c_qcap c)%nat -> forall s,
+    z_mp s <> MHandover -> (forall g, z_mp s <> MWaitOut g) ->
+    inv c s -> invK c s -> c_ll c = true -> z_closed s = false ->
+    z_mid s = true -> z_base s = false -> ~ pending s ->
+    exists l s', bg l = true /\ l <> LMMergeFail /\ step c s l = Some s' /\
+                 (mu_p s' < mu_p s)%nat /\ ~ pending s'.
+Proof. exact no_persist_stall_partial. Qed.
+Print Assumptions C20_no_persist_stall_partial.
